@@ -292,6 +292,23 @@ CLAIMED['C05'] = dict(
     technique='contract-based deductive verification: refinement via loop invariant + per-cell contracts + event-source '
               'contracts, z3/cvc5')
 
+CLAIMED['C13'] = dict(
+    text='Deductive proof of the safety content of a bounded-liveness statement, as lemmas over contracts: everything of '
+         'C05 (each iteration of run() is one PS3.8 step; loop invariant Inv: idle <=> no connection, ARTIM runs exactly '
+         'in Sta2 and Sta13); lemmas over the code\'s transition table and the transcription: Evt17 is defined in every '
+         'connected state and leads to Sta1; Evt18 is defined in Sta2 and Sta13, closes the connection and leads to Sta1; '
+         'every ending action lands in Sta1 or Sta13; every ending of an association the user knows about gives the user '
+         'an indication; run() sets the completion event however the loop ends and tells the user when an exception '
+         'escapes; kill() raises the stop flag before waiting for that event; stop() stops only an idle provider; '
+         'Association.kill() is a bounded wait followed by dul.kill(). With C12 (iterations terminate and never block) '
+         'the stop flag is seen at the next loop head and the waits in Sta2/Sta13 are bounded by ARTIM.',
+    ref='4/C13',
+    note=TRUST + LOOPNOTE + 'the time bound itself (ARTIM period + 50 ms polling) and thread scheduling are not within a '
+         'sequential contract verifier: the liveness conclusion is an argument over the machine-checked lemmas; OS '
+         'delivers a closed connection as readable end of stream',
+    technique='contract-based deductive verification: loop invariant, lemmas over the transition table, postconditions '
+              'of run/kill/stop, z3/cvc5')
+
 NOT_YET = {
 }
 
